@@ -62,6 +62,7 @@ def obligations(tier, seed):
         sk("rollup_basic", "S_RU2;S_TXA;S_CH;S_CR;S_TXA"),
         sk("rollup_pac", "S_RU3;S_PAC(12,6);S_TXA;S_CR;S_TXA"),
         sk("rollup_top_clamp", "S_RU4;S_PAC(2,0);S_TXA;S_CR;S_TXA;S_CR"),
+        sk("rollup_top_repac", "S_RU4;S_PAC(2,0);S_TXA;S_CR;S_PAC(2,0);S_TXA;S_CR;S_PAC(2,0);S_TXS"),   # the usual CR / PAC / text pattern with the window clamped at the top: a repeated PAC to the same base row moves nothing
         sk("rollup_midrow_edm", "S_RU2;S_LIT(0x41,0x42);S_MRX;S_TXA;S_EDM;S_TXS"),
         sk("rollup_dup_badpar", "S_RU2;S_RU2;S_TXA;S_CR;S_CR;S_TXA;S_MISCBAD(0x2D);S_TXS"),
         sk("popon_datax", "S_RCL;S_PAC(7,0);S_LIT(0x41,0x42);S_DATAX;S_TXA;S_EOC"),
